@@ -101,8 +101,8 @@ func runC10(c *Ctx, r *Report) {
 					switch u := ref.(type) {
 					case *ssa.Store:
 						nAssign++
-						_, isParam := u.Val.(*ssa.Parameter)
-						r.check(fn.Name() == "decode" && isParam, "C10-R1-reader", "assign@"+fn.String(), c.pos(u.Pos()), "reader assigned from the parameter, unwrapped", "decoder.r is assigned from something other than the caller's reader: a wrapper (bufio, LimitReader) may read past the frame")
+						isParam := readerFromCaller(c, u)
+						r.check(isParam, "C10-R1-reader", "assign@"+fn.String(), c.pos(u.Pos()), "reader assigned from the parameter, unwrapped", "decoder.r is assigned from something other than the caller's reader: a wrapper (bufio, LimitReader) may read past the frame")
 					case *ssa.UnOp:
 						for _, use := range *u.Referrers() {
 							ci, ok := use.(ssa.CallInstruction)
@@ -228,6 +228,25 @@ func runC10(c *Ctx, r *Report) {
 						if instrDominates(h, st) {
 							behindHeader = true
 						}
+					}
+					if !behindHeader && f2 != fn {
+						// a set-up helper: every call of it comes behind the header decode in its caller
+						sites, behind := 0, 0
+						for _, g := range c.moduleFuncs() {
+							for _, ci := range allCalls(g) {
+								if ci.Common().StaticCallee() != f2 {
+									continue
+								}
+								sites++
+								for _, h := range c.callsVia(g, "decodeHeader") {
+									if instrDominates(h, ci) {
+										behind++
+										break
+									}
+								}
+							}
+						}
+						behindHeader = sites > 0 && sites == behind
 					}
 					calledByDecode := f2 == fn
 					for _, ci := range allCalls(fn) {
@@ -591,4 +610,40 @@ func c10Counters(c *Ctx, r *Report) {
 		}
 	}
 	r.need("i/n advance pairs", nPairs, 3)
+}
+
+// readerFromCaller: the store assigns decoder.r the reader the caller of decode passed in: the
+// store is in decode and stores its parameter, or in a set-up helper that stores its own parameter
+// and is called only from decode with decode's parameter.
+func readerFromCaller(c *Ctx, st *ssa.Store) bool {
+	p, ok := st.Val.(*ssa.Parameter)
+	if !ok {
+		return false
+	}
+	fn := st.Parent()
+	if fn.Name() == "decode" {
+		return true
+	}
+	idx := -1
+	for i, q := range fn.Params {
+		if q == p {
+			idx = i
+		}
+	}
+	sites := 0
+	for _, g := range c.moduleFuncs() {
+		for _, ci := range allCalls(g) {
+			if ci.Common().StaticCallee() != fn {
+				continue
+			}
+			sites++
+			if g.Name() != "decode" || idx >= len(ci.Common().Args) {
+				return false
+			}
+			if _, isP := ci.Common().Args[idx].(*ssa.Parameter); !isP {
+				return false
+			}
+		}
+	}
+	return sites == 1
 }
